@@ -132,6 +132,10 @@ fn judge_proportion(n: usize, seed: u64, l: &mut Local) {
 
 fn judge_quantile(n: usize, seed: u64, l: &mut Local) {
     let mut r = Rng::from(&[seed, 0xc12a, n as u64]);
+    // distinct data whose values are their own ranks, in a seeded order: the data-taking entry point
+    // must enclose exactly the order statistics the ranks designate
+    let mut ranks_as_data: Vec<f64> = (0..n.min(4000)).map(|i| i as f64).collect();
+    r.shuffle(&mut ranks_as_data);
     let g = 197;
     let jitter = r.f64();
     for gi in 0..g {
@@ -180,6 +184,25 @@ fn judge_quantile(n: usize, seed: u64, l: &mut Local) {
                         continue;
                     }
                 };
+                // the same interval through the data (elements are their ranks)
+                if n <= 4000 && gi % 4 == 1 {
+                    l.eval();
+                    l.count("quantile coverage through the data-taking entry point");
+                    let via_data = call(|| quantile::ci(c, &ranks_as_data, q)).map(|i| match i {
+                        Interval::TwoSided(a, b) => Interval::TwoSided(a as usize, b as usize),
+                        Interval::UpperOneSided(a) => Interval::UpperOneSided(a as usize),
+                        Interval::LowerOneSided(b) => Interval::LowerOneSided(b as usize),
+                    });
+                    let same = matches!(&via_data, Out::Ok(d) if *d == iv);
+                    if !same {
+                        l.violation(
+                            format!("quantile|data-entry-point-covers-differently|{}", kind.name()),
+                            "quantile::ci on data encloses other order statistics than the ranks of ci_indices: its coverage is not the one computed from the ranks".to_string(),
+                            json!({"what": "quantile", "n": n}),
+                            json!({"n": n, "q": q, "kind": kind.name(), "level": level, "ranks": format!("{:?}", iv), "through_data": via_data.describe()}),
+                        );
+                    }
+                }
                 let cov = match iv {
                     Interval::TwoSided(lo, hi) => prob(lo + 1, hi),
                     Interval::UpperOneSided(lo) => prob(lo + 1, n),
@@ -220,7 +243,7 @@ fn judge_quantile(n: usize, seed: u64, l: &mut Local) {
 pub fn run(run: &Arc<Run>) {
     let seed = run.cfg.seed;
     let ns: Vec<usize> = if run.cfg.quick() {
-        vec![25, 30, 40, 50, 75, 100, 200, 400, 1000]
+        vec![25, 30, 40, 50, 75, 100, 200, 400, 1000, 2000, 4000]
     } else {
         // ladder of ~60 values up to 5000
         let mut v: Vec<usize> = vec![21, 22, 23, 24, 25, 26, 27, 28, 29, 30, 32, 35, 37, 40, 45, 50, 55, 60, 64, 70, 75, 80, 90, 100, 101, 120, 128, 150, 175, 200, 250, 256, 300, 365, 400, 500, 600, 700, 800, 900, 1000, 1024, 1200, 1500, 1700, 2000, 2500, 3000, 3500, 4000, 4500, 5000];
@@ -266,6 +289,6 @@ pub fn run(run: &Arc<Run>) {
             judge_quantile(n, seed, l)
         }
     });
-    run.require(&["proportion average coverage judged", "quantile coverage judged", "proportion: kinds interleaved at the same level"]);
+    run.require(&["proportion average coverage judged", "quantile coverage judged", "proportion: kinds interleaved at the same level", "quantile coverage through the data-taking entry point"]);
     let _: Option<Value> = None;
 }
